@@ -148,6 +148,24 @@ where
         }
     }
 
+    /// true if the frame is addressed to a unit id that this server was configured with
+    ///
+    /// A frame for any other unit id must never be answered, not even with an exception:
+    /// on a multi-drop serial line the reply would collide with the addressed device's own.
+    fn is_served(&mut self, destination: FrameDestination) -> bool {
+        match destination {
+            FrameDestination::UnitId(unit_id) => {
+                if self.handlers.get(unit_id).is_none() {
+                    tracing::warn!("received frame for unmapped unit id: {}", unit_id);
+                    return false;
+                }
+                true
+            }
+            // never answered (see reply_with_error_generic)
+            FrameDestination::Broadcast => true,
+        }
+    }
+
     async fn handle_frame(&mut self, io: &mut PhysLayer, frame: Frame) -> Result<(), RequestError> {
         let mut cursor = ReadCursor::new(frame.payload());
 
@@ -160,6 +178,9 @@ where
                 Some(x) => x,
                 None => {
                     tracing::warn!("received unknown function code: {}", value);
+                    if !self.is_served(frame.header.destination) {
+                        return Ok(());
+                    }
                     return self
                         .reply_with_error_generic(
                             io,
@@ -176,6 +197,9 @@ where
             Ok(x) => x,
             Err(err) => {
                 tracing::warn!("error parsing {:?} request: {}", function, err);
+                if !self.is_served(frame.header.destination) {
+                    return Ok(());
+                }
                 return self
                     .reply_with_error(io, frame.header, function, ExceptionCode::IllegalDataValue)
                     .await;
